@@ -21,6 +21,9 @@ try:
 except ImportError:
     z3 = None
 from . import common, neutral
+import re as _re_mod
+import pyparsing as pp
+_SAFE_RE = None
 from . import textworker as tw
 
 # reference rejections that correspond to the structural breakages the property names
@@ -43,6 +46,15 @@ C07_DOCS = {
     'ver25': 'ver:"2.5" a:1\nx\n"s"\n',
     'ver300': 'ver:"3.0.0"\nx\n[1]\nNA\n',
 }
+FILTER_DOCS = {
+    'f_and': 'site and equip', 'f_or': 'not ahu or (temp and sensor)', 'f_path': 'siteRef->geoCity == "Chi\\"ca$go"'.replace('$', '\\$'),
+    'f_qty': 'curVal >= 75.5kW', 'f_uri': 'x == `http://a/b`', 'f_ref': 'r != @abc-1 "Dis"', 'f_date': 'd == 2020-02-29', 'f_time': 'h < 12:30:00',
+    'f_xstr': 'x == Span("2020")', 'f_bool': 'b == true and c == false', 'f_list': 'l == [1, "a"]', 'f_dict': 'd == {a:1 b}', 'f_inf': 'n == INF',
+    'f_coord': 'c == C(1.5,2.5)', 'f_bin': 'x == Bin(text/plain)', 'f_dt': 'ts > 2020-01-01T00:00:00Z UTC', 'f_null': 'v == N or w != M or q == NA',
+}
+# what the generated source may consist of: fixed templates, operators from a closed set, literal references by index, and lists of tag names
+SAFE_SOURCE = (r"(\(|\)| and | or |_compare\('(==|!=|<=|>=|<|>)', |, |_literals\[[0-9]+\]|id\(|\) !=  id\(NOT_FOUND\)|\) == id\(NOT_FOUND\)"
+               r"|_get_path\(_grid, _entity, \['[a-z][a-zA-Z0-9_]*'(, '[a-z][a-zA-Z0-9_]*')*\]\))*")
 SCALAR_DOCS = {
     'num': ('3.0', '-12_345.678e+5kW/h'), 'str': ('3.0', '"a\\"b\\u00e9\\n$x"'.replace('$', '\\$')), 'uri': ('2.0', '`http://a/b\\`c\\u0041`'),
     'ref': ('3.0', '@abc-1.2 "Display"'), 'date': ('2.0', '2020-02-29'), 'time': ('3.0', '12:34:56.789'), 'time6': ('2.0', '23:59:59.123456'),
@@ -76,6 +88,11 @@ JSON_DOCS = {
     'jdt': ('3.0', 't:2021-03-04T05:06:07+05:30 Kolkata'), 'jdtz': ('2.0', 't:2021-03-04T05:06:07Z'), 'jdtf': ('3.0', 't:2021-03-04T05:06:07.125Z UTC'),
     'jcoord': ('3.0', 'c:37.5,-122.25'), 'jxstr': ('3.0', 'x:Span:2020-01'), 'jhex': ('3.0', 'x:hex:dead01'),
 }
+
+
+def _init_safe():
+    global _SAFE_RE
+    _SAFE_RE = _re_mod.compile(SAFE_SOURCE)
 
 
 def within(exc, chars_of):
@@ -135,6 +152,29 @@ def run_doc(hz, ref, name, text, job, ex_factory):
                     if ex.check() != z3.sat:
                         return None
                     return chr(ex.model().eval(c, model_completion=True).as_long())
+                if prop == 'C12':
+                    GF = sys.modules['hszinc.grid_filter']
+                    try:
+                        with contextlib.redirect_stdout(io.StringIO()):
+                            ast_ = GF.parse_filter(t)
+                    except Exception as e:
+                        stats['reached'] += 1
+                        if isinstance(e, (pp.ParseBaseException, ValueError)):
+                            return ('ok',)
+                        return ('cex', 'an invalid filter raised %s instead of a parse error' % type(e).__name__, model())
+                    stats['reached'] += 1
+                    lits = []
+                    pieces = GF._generate_filter_in_python(ast_._head, [], lits) if GF._generate_filter_in_python.__code__.co_argcount >= 3 \
+                        else GF._generate_filter_in_python(ast_._head, [])
+                    body_src = sstr.sx_join('', pieces)
+                    # the generated text is needed concretely for the syntactic safety check: exhaustive forking over small
+                    # domains (tag-name characters), sampling of representatives for unconstrained characters (counted)
+                    plain_src = instr.conc_value(body_src) if isinstance(body_src, SymStr) else body_src
+                    from . import c12audit
+                    prob = c12audit.source_problem('def f(_grid, _entity, _literals=None):\n  return ' + plain_src, GF)
+                    if prob is not None:
+                        return ('cex', 'code derived from the filter text in the generated source: %s' % prob, model())
+                    return ('ok',)
                 # reference first (C03: paths where the reference rejects are outside the claim)
                 try:
                     with contextlib.redirect_stdout(io.StringIO()):
@@ -235,11 +275,15 @@ def run_job(job):
     logging.disable(logging.CRITICAL)
     hz = tw.load()
     ref = tw.json_ref(True) if job.get('json') else tw.zinc_ref(True)
-    docs = JSON_DOCS if job.get('json') else (SCALAR_DOCS if job.get('scalar') else dict(GRID_DOCS, **C07_DOCS))
+    docs = FILTER_DOCS if job.get('filter') else (JSON_DOCS if job.get('json') else (SCALAR_DOCS if job.get('scalar') else dict(GRID_DOCS, **C07_DOCS)))
+    _init_safe()
     t0 = time.time()
     allc, tot = [], None
     for name in job['docs']:
-        if job.get('scalar'):
+        if job.get('filter'):
+            text = docs[name]
+            j = job
+        elif job.get('scalar'):
             version, text = docs[name]
             j = dict(job, version=version)
         else:
@@ -257,6 +301,9 @@ def run_job(job):
 
 
 def mutated(job, c):
+    if job.get('filter'):
+        text = FILTER_DOCS[c['doc']]
+        return text if c['op'] == 'none' else ((text[:c['pos']] + c['char'] + text[c['pos'] + 1:]) if c['op'] == 'replace' else (text[:c['pos']] + c['char'] + text[c['pos']:]))
     docs = JSON_DOCS if job.get('json') else (SCALAR_DOCS if job.get('scalar') else dict(GRID_DOCS, **C07_DOCS))
     text = docs[c['doc']][1] if job.get('scalar') else docs[c['doc']]
     if c['op'] == 'none':
@@ -274,6 +321,10 @@ def replay(hz, job, c):
     version = ((JSON_DOCS if job.get('json') else SCALAR_DOCS)[c['doc']][0]) if scalar else None
     t = mutated(job, c)
     ZPE = sys.modules['hszinc.zincparser'].ZincParseException
+    if prop == 'C12':
+        from . import c12audit
+        probs = c12audit.audit_run(hz, [t])
+        return ('filter %r: %s' % probs[0]) if probs else None
     try:
         if job.get('json'):
             R = ('ok', ref.decode_string(t, version == '3.0'))
@@ -291,6 +342,10 @@ def replay(hz, job, c):
                 H = ('ok', hz.parse_scalar(t, mode=hz.MODE_ZINC, version=version) if scalar else hz.parse(t, mode=hz.MODE_ZINC, single=False))
     except Exception as e:
         H = ('exc', e)
+    if prop == 'C12':
+        from . import c12audit
+        probs = c12audit.audit_run(hz, [t])
+        return ('filter %r: %s' % probs[0]) if probs else None
     if prop == 'C07':
         if H[0] == 'exc':
             return None
@@ -505,6 +560,12 @@ def replay_corpus(hz, job, c):
     return None
 
 
+def replay_canary(hz, job, c):
+    from . import c12audit
+    probs = c12audit.audit_run(hz, [c])
+    return ('filter %r: %s' % probs[0]) if probs else None
+
+
 def replay_forms(hz, job, c):
     n, fails = json_forms(hz)
     for name, msg in fails:
@@ -516,7 +577,18 @@ def replay_forms(hz, job, c):
 if __name__ == '__main__':
     job = json.loads(sys.argv[1])
     try:
-        if job.get('corpus'):
+        if job.get('canary'):
+            import logging
+            logging.disable(logging.CRITICAL)
+            sys.path.insert(0, common.REPO)
+            with contextlib.redirect_stdout(io.StringIO()):
+                import hszinc
+            from . import c12audit
+            texts = c12audit.CANARY_FILTERS + list(FILTER_DOCS.values())
+            probs = c12audit.audit_run(hszinc, texts)
+            res = dict(job=job, status='done', cex=[], ncex=0, forms_run=len(texts), forms_failures=[[t, m] for t, m in probs], wall_s=0.0, functions=[], conc_calls=[],
+                       stats=dict(explorations=0, paths=len(texts), checks=0, solver_s=0.0, nontrivial=len(texts), errors=[], reached=len(texts), budget=0))
+        elif job.get('corpus'):
             import logging
             logging.disable(logging.CRITICAL)
             sys.path.insert(0, common.REPO)
